@@ -65,6 +65,23 @@ impl Target {
         }
         Ok(Target { child, pid, stdin, reader, facts, fact_list, tids, shared, scen_path })
     }
+    /// wait until the threads that block in a system call are back in it (after a stop they restart the
+    /// call; a dump taken before they ran again sees them at the `syscall` instruction instead of after it)
+    pub fn settle(&self) {
+        for _ in 0..200 {
+            let mut all = true;
+            if let Ok(rd) = std::fs::read_dir(format!("/proc/{}/task", self.pid)) {
+                for e in rd.flatten() {
+                    let sc = std::fs::read_to_string(e.path().join("syscall")).unwrap_or_default();
+                    // "running" = never blocks (spinners, null-SP helpers); "-1 ..." = stopped outside a system call
+                    if sc.starts_with("-1") { all = false; }
+                }
+            }
+            if all { break; }
+            std::thread::sleep(std::time::Duration::from_micros(300));
+        }
+        std::thread::sleep(std::time::Duration::from_micros(500));
+    }
     pub fn fact_hex(&self, k: &str) -> u64 { u64::from_str_radix(self.facts.get(k).map(|s| s.as_str()).unwrap_or("0"), 16).unwrap_or(0) }
     pub fn facts_with_prefix(&self, p: &str) -> Vec<String> { self.fact_list.iter().filter(|(k, _)| k.starts_with(p)).map(|(_, v)| v.clone()).collect() }
     /// u64 slot of the page shared with the target: [0..63] heartbeats, [64..127] signal counts, [128..191] spin counters
